@@ -57,6 +57,7 @@ class Scheduler(object):
         self.fine_files = fine_files
         self.finished = threading.Event()
         self.quiesced = False
+        self.timeout_diag = None
 
     # ---- registration
     def register(self, name, thread=None):
@@ -283,6 +284,11 @@ class Scheduler(object):
         ok = self.finished.wait(timeout)
         if not ok:
             with self.cv:
+                self.timeout_diag = {
+                    'current': getattr(self.current, 'name', None),
+                    'states': [(s.name, s.status, str(s.waiting_on)[:60])
+                               for s in self.states],
+                    'steps': self.steps, 'trace_tail': self.trace[-12:]}
                 self._abort('harness timeout')
             return 'timeout'
         if self.aborted == 'quiescent':
